@@ -39,6 +39,15 @@ func (f *FileOutputHandler) Hash(_ context.Context, target model.Target, output 
 	if err != nil {
 		return "", fmt.Errorf("failed to hash file %s: %w", absOutputPath, err)
 	}
+	// The executable bit is part of the output (it is recorded and restored for cached
+	// targets): a change of it alone must reach the dependants of an uncached target as well
+	fileInfo, err := os.Stat(absOutputPath)
+	if err != nil {
+		return "", fmt.Errorf("failed to stat file %s: %w", absOutputPath, err)
+	}
+	if fileInfo.Mode()&0111 != 0 {
+		fileHash = hashing.HashString(fileHash + "\x00executable")
+	}
 	return fileHash, nil
 }
 
